@@ -339,11 +339,152 @@ let handle_cl fields impl =
      | _ -> (Some "driver: cannot parse cl observable", []))
   | _ -> (Some "driver: bad cl line", [])
 
+(* live node lookup over loopback (real lookupWorker / findNodes / handleFindNodes):
+     ll <mode> <target> <kseed> <tables> <dead> <ids> | ok <events> <result> <undrained>
+   The expected FINDNODES answer of a listening node q is computed here from its (fixed) table: the entries whose log
+   distance from q is one of lookup_distances target q (model), plus q itself for distance 0; the reply the worker hands
+   to the lookup is the model's lookup_worker_reply of that answer (C10_worker_reply: never the local node, <= 32).
+   With these answers the run must be a run of the lookup model (same search as for cl lines) with exactly this result. *)
+let handle_ll fields impl =
+  match fields with
+  | [_; mode; target; _kseed; tables; dead; universe] ->
+    if impl = "unobserved" then (None, []) else
+    if starts impl "err timeout" then (Some "ok", ["lookup-did-not-terminate live-lookup " ^ impl]) else
+    if starts impl "panic" then (Some "ok", ["lookup-goroutine-panics live-lookup " ^ impl]) else
+    let idh = Array.of_list (split ',' universe) in
+    let nn = Array.length idh in
+    let ids = Array.map n_hex idh in
+    let back = Hashtbl.create 64 in
+    Array.iteri (fun i h -> Hashtbl.replace back h i) idh;
+    let pad s = String.make (64 - String.length s) '0' ^ s in
+    let to_idx (x : n) = match Hashtbl.find_opt back (pad (Util.hex_of_n (Obj.magic x))) with Some i -> i | None -> 999999 in
+    let tabs = Array.make nn [] in
+    List.iter (fun e -> match String.index_opt e ':' with
+      | Some c -> let i = int_of_string (String.sub e 0 c) in
+        if i < nn then tabs.(i) <- List.filter (fun j -> j >= 0 && j < nn) (idxs (String.sub e (c + 1) (String.length e - c - 1)))
+      | None -> ()) (split ';' tables);
+    let is_dead = Array.make nn false in
+    List.iter (fun i -> if i >= 0 && i < nn then is_dead.(i) <- true) (idxs dead);
+    (match String.split_on_char ' ' impl with
+     | ["ok"; evs; result; undr] ->
+       let result = idxs result in
+       (* events *)
+       let parsed = List.map (fun e ->
+         let c = e.[0] in
+         let body = String.sub e 1 (String.length e - 1) in
+         let body, cnt = match String.index_opt body ':' with
+           | Some k -> String.sub body 0 k, int_of_string (String.sub body (k + 1) (String.length body - k - 1))
+           | None -> body, -1 in
+         let plus = String.length body > 0 && body.[String.length body - 1] = '+' in
+         let body = if plus then String.sub body 0 (String.length body - 1) else body in
+         (c, int_of_string body, plus, cnt)) (split ',' evs) in
+       let posS = Array.make nn (-1) and posA = Array.make nn (-1) and posT = Array.make nn (-1) in
+       List.iteri (fun k (c, i, _, _) -> if i >= 0 && i < nn then
+         (match c with 'S' -> if posS.(i) < 0 then posS.(i) <- k | 'A' -> if posA.(i) < 0 then posA.(i) <- k
+                     | 'T' -> if posT.(i) < 0 then posT.(i) <- k | _ -> ())) parsed;
+       let of_kind c = List.filter_map (fun (c', i, _, _) -> if c' = c then Some i else None) parsed in
+       let st = of_kind 'S' and queried = of_kind 'T' in
+       let mons = ref [] in
+       let add m = if not (List.mem m !mons) then mons := m :: !mons in
+       let has_dup l = List.length (List.sort_uniq compare l) <> List.length l in
+       if has_dup st || has_dup queried then add "peer-asked-twice live-lookup";
+       if List.mem 0 st || List.mem 0 queried then add "self-asked live-lookup";
+       let infl = ref 0 in
+       List.iter (fun (c, _, _, _) -> (match c with 'S' -> incr infl | 'A' -> decr infl | _ -> ());
+                   if !infl > 3 then add "more-than-alpha-in-flight live-lookup") parsed;
+       if int_of_string undr > 0 then add ("lookup-did-not-drain-on-cancel live-lookup " ^ undr);
+       List.iter (fun (c, i, plus, cnt) -> if c = 'T' then begin
+           if cnt > 32 then add (Printf.sprintf "worker-reply-exceeds-limit peer %d handed %d nodes to the lookup" i cnt);
+           if plus && cnt = 0 then add (Printf.sprintf "fruitless-query-reported-as-success live-lookup peer %d" i)
+           else if (not plus) && cnt > 0 then add (Printf.sprintf "fruitful-query-reported-as-failure live-lookup peer %d" i)
+         end) parsed;
+       if List.mem 0 result then add "local-node-in-result live-lookup";
+       if has_dup result then add "result-duplicate live-lookup";
+       if List.length result > 16 then add ("result-too-long live-lookup " ^ string_of_int (List.length result));
+       if mode = "r" then (Some impl, List.rev !mons) else begin
+         let tgt = n_hex target in
+         let key = xkey tgt in
+         let d i = if i >= 0 && i < nn then xor_hex idh.(i) target else "~" in
+         let rec chk = function a :: (b :: _ as r) -> if compare (d a) (d b) > 0 then add (Printf.sprintf "result-not-sorted live-lookup %d before %d" a b); chk r | _ -> () in
+         chk result;
+         (* what the worker hands to the lookup for peer q *)
+         let ans_tbl = Hashtbl.create 16 in
+         let ans_of q : n option list =
+           match Hashtbl.find_opt ans_tbl q with Some l -> l | None ->
+             let l =
+               if q < 0 || q >= nn || is_dead.(q) then []
+               else begin
+                 let dists = lookup_distances tgt ids.(q) in
+                 let at n = List.mem (logdist ids.(q) ids.(n)) dists in
+                 let r = (if at q then [ids.(q)] else []) @ List.filter_map (fun n -> if at n then Some ids.(n) else None) tabs.(q) in
+                 match lookup_worker_reply key ids.(0) r with Ok l -> List.map (fun x -> Some x) l | _ -> []
+               end in
+             Hashtbl.replace ans_tbl q l; l in
+         (* closest seen: the asker's table and every delivered reply *)
+         let seen = Hashtbl.create 16 in
+         List.iter (fun i -> Hashtbl.replace seen i ()) tabs.(0);
+         List.iter (fun q -> List.iter (function Some x -> Hashtbl.replace seen (to_idx x) () | None -> ()) (ans_of q)) queried;
+         let last = match List.rev result with x :: _ -> Some x | [] -> None in
+         Hashtbl.iter (fun x () -> if not (List.mem x result) then
+           match last with
+           | Some l when List.length result >= 16 -> if compare (d x) (d l) < 0 then add (Printf.sprintf "closer-seen-node-omitted live-lookup %d" x)
+           | _ -> add (Printf.sprintf "closer-seen-node-omitted live-lookup %d reachable, result has only %d" x (List.length result))) seen;
+         (* reply sizes *)
+         let size_diff = List.filter_map (fun (c, i, _, cnt) ->
+           if c = 'T' && cnt >= 0 && cnt <> List.length (ans_of i) then Some (Printf.sprintf "%d:%d(model %d)" i cnt (List.length (ans_of i))) else None) parsed in
+         let tbl_n = List.map (fun i -> ids.(i)) tabs.(0) in
+         let first_fail = ref None in
+         let note s = if !first_fail = None then first_fail := Some s in
+         let budget = ref 100000 in
+         let visited = Hashtbl.create 256 in
+         let rec go (s : lk) (max_a : int) =
+           decr budget;
+           if !budget < 0 then () else
+           match start_queries key tbl_n s with
+           | Ok (s1, more) ->
+             let rec newq l k acc = if k = 0 then acc else match l with x :: r -> newq r (k - 1) (to_idx x :: acc) | [] -> acc in
+             let fresh = newq s1.qlog (List.length s1.qlog - List.length s.qlog) [] in
+             if List.exists (fun q -> q >= nn || posT.(q) < 0 || (posS.(q) >= 0 && posS.(q) < max_a)) fresh then
+               note ("model starts an unobserved or too early query: " ^ show_idxs fresh)
+             else if not more then begin
+               let q = List.map to_idx s1.qlog in
+               let r = List.map to_idx s1.result in
+               if List.sort compare q = List.sort_uniq compare queried && r = result && List.length s1.pending = int_of_string undr
+               then raise (Found impl)
+               else note (Printf.sprintf "ok %s %s %d (model queried %s)" evs (show_idxs r) (List.length s1.pending) (show_idxs (List.rev q)))
+             end else begin
+               let sig_ = (max_a, List.sort compare (List.map to_idx s1.asked), List.sort compare (List.map to_idx s1.pending),
+                           s1.tpending <> None, List.length s1.seen) in
+               if not (Hashtbl.mem visited sig_) then begin
+                 Hashtbl.replace visited sig_ ();
+                 let cands = match s1.tpending with
+                   | Some _ -> [(-1, CTable, max_a)]
+                   | None -> List.map (fun p -> let i = to_idx p in (posT.(i), CReply p, max max_a posA.(i))) s1.pending in
+                 let cands = List.sort (fun (a, _, _) (b, _, _) -> compare a b) cands in
+                 List.iter (fun (_, c, me) ->
+                   match apply_choice key (fun p -> ans_of (to_idx p)) s1 c with
+                   | Ok s2 -> go s2 me
+                   | _ -> note "model: err/panic") cands
+               end
+             end
+           | _ -> note "model: err/panic in start_queries" in
+         let verdict =
+           if size_diff <> [] then "worker reply sizes differ: " ^ String.concat "," size_diff else
+           try go (init ids.(0)) (-1);
+             "no-model-run-matches" ^ (if !budget < 0 then "(search budget exhausted)" else "") ^
+             (match !first_fail with Some o -> "; first candidate: " ^ o | None -> "")
+           with Found o -> o in
+         (Some verdict, List.rev !mons)
+       end
+     | _ -> (Some "driver: cannot parse ll observable", []))
+  | _ -> (Some "driver: bad ll line", [])
+
 let handle fields impl : string option * string list =
   match fields with
   | "lk" :: _ -> handle_lk fields impl
   | "push" :: _ -> handle_push fields impl
   | "cl" :: _ -> handle_cl fields impl
+  | "ll" :: _ -> handle_ll fields impl
   | _ -> (Some "driver: unknown line", [])
 
 let () = Util.run handle
